@@ -3,7 +3,7 @@
    then_cmp from well-behaved component orders are well-behaved. *)
 From Coq Require Import NArith Arith List Bool Lia ZArith.
 From Coq Require Import ZifyN ZifyBool ZifyNat.
-From DV Require Import Base.Outcome Base.Bytes Base.Lex Base.Names C04.Gen C04.Model
+From DV Require Import Base.Outcome Base.Bytes Base.Lex Base.Names C17.Model C04.Gen C04.Model
   C04.ProofsLabel C04.ProofsIter C04.ProofsData.
 Import ListNotations.
 Local Open Scope N_scope.
@@ -91,6 +91,27 @@ Proof. apply record_canonical_good. Qed.
 Theorem record_canonical_eq_subst a b c :
   m_record_canonical_cmp a b = Eq -> m_record_canonical_cmp a c = m_record_canonical_cmp b c.
 Proof. apply record_canonical_good. Qed.
+
+(* ---- PartialOrd must agree with Ord: partial_cmp a b = Some (cmp a b) *)
+
+Theorem u32_partial_agrees a b : u32_partial_gen false a b = Some (a ?= b).
+Proof. reflexivity. Qed.
+
+(* serial number arithmetic: undefined at distance 2^31, reversed beyond *)
+Theorem u32_partial_serial_refuted :
+  u32_partial_gen true 0 2147483648 = None /\ u32_partial_gen true 0 2147483649 = Some Gt /\
+  (0 ?= 2147483649) = Lt.
+Proof. vm_compute. auto. Qed.
+
+Theorem pfx_partial_agrees a b :
+  pfx_partial_gen true a b = Some (m_charstr_canonical_cmp a b).
+Proof. reflexivity. Qed.
+
+(* plain octet order of salts: 02 vs 01 01 is Greater, canonically (length
+   first) Less *)
+Theorem pfx_partial_plain_refuted :
+  pfx_partial_gen false [2] [1;1] = Some Gt /\ m_charstr_canonical_cmp [2] [1;1] = Lt.
+Proof. vm_compute. auto. Qed.
 
 (* ---- RecordHeader: Ord is a total preorder whose equivalence is Eq *)
 
